@@ -49,8 +49,11 @@ func (ex *Exec) evalExpr(st *State, e ast.Expr) Val {
 	case *ast.SelectorExpr:
 		return ex.evalSelector(st, n)
 	case *ast.StarExpr:
-		r := ex.evalExpr(st, n.X).(*RefV)
-		return ex.load(st, r, n)
+		v := ex.evalExpr(st, n.X)
+		if o, isObj := v.(*ObjV); isObj {
+			return o // a pointer to an opaque library object is modelled by the object itself
+		}
+		return ex.load(st, v.(*RefV), n)
 	case *ast.UnaryExpr:
 		return ex.evalUnary(st, n)
 	case *ast.BinaryExpr:
@@ -705,6 +708,12 @@ func (ex *Exec) globalInit(st *State, o *types.Var) Val {
 			return ex.evalComposite(st, cl, o.Type())
 		}
 	}
+	if k.K == "obj" && ex.prog.ByPath[o.Pkg().Path()] == nil {
+		// a package-level value of a library (binary.BigEndian, os.Stdout, …): a named constant, so that contracts can
+		// tell which one was passed (global("binary.BigEndian")); nothing else is known about it
+		fv := ex.freshVal(st, k, name).(*ObjV)
+		return &ObjV{K: fv.K, ID: Var(name, SInt), Ghost: fv.Ghost}
+	}
 	ex.note("package-level variable %s modelled as an unconstrained value", name)
 	return ex.freshVal(st, k, name)
 }
@@ -959,7 +968,9 @@ func (ex *Exec) evalCall(st *State, call *ast.CallExpr) Val {
 		if lt != nil {
 			tk := key + "#" + types.TypeString(lt, func(p *types.Package) string { return p.Name() })
 			if ct := ex.prog.Contracts.ByKey[tk]; ct != nil {
-				return ex.applyContract(st, ct, f, recv, args, call)
+				res := ex.applyContract(st, ct, f, recv, args, call)
+				ex.afterCallAsserts(st, f.Name(), recv, args, res, call)
+				return res
 			}
 		}
 	}
@@ -1393,6 +1404,11 @@ func (ex *Exec) afterCallAsserts(st *State, name string, recv Val, args []Val, r
 		return
 	}
 	extra := map[string]Val{"res": res}
+	if tv, ok := res.(*TupleV); ok {
+		for i, v := range tv.Vs {
+			extra[fmt.Sprintf("res%d", i)] = v
+		}
+	}
 	for i, a := range args {
 		extra[fmt.Sprintf("arg%d", i)] = a
 	}
